@@ -168,15 +168,16 @@ def gen_newtype(name, ity, constmod, consts):
         o.append('}')
     return o
 
+SPEC_LINES = []
 def gen_packet(p):
     o = []
     name, pre, mn = p['name'], p['prefix'], p['min']
     # spec functions
     for fname, kind in p['fields']:
-        o.append('pub open spec fn %s_%s(s: Seq<u8>) -> %s { %s }' % (pre, fname, spec_ret_ty(kind), spec_get(kind)))
+        SPEC_LINES.append('pub open spec fn %s_%s(s: Seq<u8>) -> %s { %s }' % (pre, fname, spec_ret_ty(kind), spec_get(kind)))
     ps = payload_spec(p)
     if ps:
-        o.append('pub open spec fn %s_payload(s: Seq<u8>) -> Seq<u8> { %s }' % (pre, ps))
+        SPEC_LINES.append('pub open spec fn %s_payload(s: Seq<u8>) -> Seq<u8> { %s }' % (pre, ps))
     for mut in (False, True):
         T = ('Mutable' if mut else '') + name + 'Packet'
         o.append('pub struct %s<\'p> { pub bytes: Vec<u8>, pub _p: core::marker::PhantomData<&\'p ()> }' % T)
@@ -297,13 +298,28 @@ def main():
     for p in PACKETS:
         mods.setdefault(p['mod'], []).append(p)
     def body_of(modname):
-        o = ['use vstd::prelude::*;', 'use crate::shim::*;', 'use crate::pnet::util::*;', 'use crate::pnet::packet::cksum_fns::*;', 'use crate::pnet::cksum::*;']
+        o = ['use vstd::prelude::*;', 'use crate::shim::*;', 'use crate::pnet::util::*;', 'use crate::pnet::pspec::*;', 'use crate::pnet::cksum::*;']
         top = modname.split('::')[-1] if '::' in modname else modname
         for nt in NEWTYPES.get(modname, []):
             o += gen_newtype(*nt)
         for p in mods.get(modname, []):
             o += gen_packet(p)
-        o += EXTRA.get(modname, [])
+        ex = EXTRA.get(modname, [])
+        k = 0
+        while k < len(ex):
+            l = ex[k]
+            if l.startswith('pub open spec fn '):
+                # multi-line spec fn: up to the line that is exactly '}' or single-line ending with '}'
+                blk = [l]
+                if not l.rstrip().endswith('}'):
+                    k += 1
+                    while ex[k].strip() != '}':
+                        blk.append(ex[k]); k += 1
+                    blk.append(ex[k])
+                SPEC_LINES.extend(blk)
+            else:
+                o.append(l)
+            k += 1
         return o
     order = ['ethernet', 'arp', 'ip', 'ipv4', 'ipv6', 'tcp', 'udp', 'icmp']
     for mname in order:
@@ -316,8 +332,11 @@ def main():
     for l in body_of('icmpv6::ndp'): A('        ' + l)
     A('    }')
     A('}')
-    A('pub mod cksum_fns {}')
     A('} // packet')
+    A('pub mod pspec {')
+    A('    use vstd::prelude::*; use crate::shim::*; use crate::pnet::util::*;')
+    for l in SPEC_LINES: A('    ' + l)
+    A('}')
     A('} // pnet')
     path = os.path.join(VERIF, 'shim', 'pnet.rs')
     open(path, 'w').write('\n'.join(out) + '\n')
